@@ -249,7 +249,12 @@ func (e *Env) NewConnMode(mode int) (*connection, int) {
 		if err != nil {
 			panic("harness: connect: " + err.Error())
 		}
-		simrt.WaitUntil("server accepted", func() bool { return got != nil && got.operator != nil && got.operator.isInuse() })
+		// wait until the server has finished accepting (tracked and OnConnect dispatched): closing
+		// earlier than that is the business of the C13 scenarios, not of the users of this helper
+		simrt.WaitUntil("server accepted", func() bool {
+			svr := evl.(*eventLoop).svr
+			return svr != nil && got != nil && got.operator != nil && got.operator.isInuse() && svr.connections.Len() > 0 && got.state != connStateNone
+		})
 		e.conns = append(e.conns, got)
 		return got, peer
 	case modeDial:
@@ -399,7 +404,7 @@ func SimRunScenario(name string, cfg simrt.Config) *SimResult {
 		if !strings.Contains(p.Value, "harness:") {
 			site := panicSite(p.Stack)
 			res.Violations = append(res.Violations, simrt.Violation{Property: sc.Property, Oracle: "no-panic",
-				Fingerprint: sc.Property + "/panic/" + site, Message: "panic in task " + p.Task + ": " + p.Value + "\n" + p.Stack, Step: p.Step})
+				Class: sc.Property + "/panic/" + site, Fingerprint: sc.Property + "/panic/" + site, Message: "panic in task " + p.Task + ": " + p.Value + "\n" + p.Stack, Step: p.Step})
 		}
 	}
 	return &SimResult{Result: res, Summary: e.Summary, State: e.State, NonTrivial: e.nonTriv, Hist: e.Hist}
